@@ -21,6 +21,9 @@ package starlark
 //	preset 4: 8 keys spread over both parities with one deleted-and-reinserted.
 //	preset 5: like 3 with only two distinct hashes (fewer collision classes to explore).
 //	preset 6: three keys with one (remapped) hash.
+//	preset 7: 13 odd keys in two buckets (chain 1 is 8+5 long, free slots in its overflow
+//	          bucket): 8 are = 1 mod 4 and 5 are = 3 mod 4, so the next new key makes the
+//	          table grow 2->4 and chain 01 of the new table is exactly full.
 var zzHtResidentHashes = [][]uint32{
 	{},
 	{0, 1, 1, 3, 3, 3, 3, 3},
@@ -29,6 +32,7 @@ var zzHtResidentHashes = [][]uint32{
 	{0, 2, 2, 4, 1, 3, 6, 8},
 	{0, 1, 1, 1, 1, 5, 5, 5, 5, 5, 5, 5},
 	{0, 1, 1},
+	{1, 5, 9, 13, 17, 21, 25, 29, 3, 7, 11, 15, 19},
 }
 
 // zzHtPreset inserts the residents through the real insert and mirrors them in m.
@@ -204,6 +208,14 @@ func zzH12_history_full() {
 //verif:unwind 200
 func zzH12_history_badkeys() {
 	zzHtHistory(6, 1, 1, zzParam("ops", 3, 3), true)
+}
+
+// zzH12_history_growfull: preset 7 — growth 2->4 into an exactly full chain while the old
+// chain had free slots (a slot noted before the table grows must not be used afterwards).
+//
+//verif:unwind 200
+func zzH12_history_growfull() {
+	zzHtHistory(7, zzParam("fresh", 1, 2), 1, zzParam("ops", 2, 3), false)
 }
 
 // zzH12_history_free1: 7 residents with five distinct hashes, one free slot.
